@@ -1,8 +1,192 @@
-(* C16 - configured admission policies are applied to every event, fail-closed. *)
-From NR Require Import Lib.Base Lib.PyRt C16.Rt Gen.Validators Gen.Lists C16.Model C16.Spec C16.Proofs.
+(* C16 - configured admission policies are applied to every event, fail-closed.
+   Property theorems only; proofs are in C16/Proofs.v and C16/ListProofs.v.
+   v_* , run_in_order (Gen/Validators.v) and v_is_pubkey_allowed, publish_ops, tail_ops,
+   ptag_pubkey (Gen/Lists.v) are regenerated from /repo on every run. *)
+From NR Require Import Lib.Base Lib.PyRt C16.Rt Gen.Validators Gen.Lists C16.Model C16.Spec C16.Proofs C16.ListProofs.
 Open Scope Z_scope.
 
+(* ---------------------------------------------------------------- one bound per validator *)
 Theorem C16_is_recent_bound : forall now ev cfg,
   v_is_recent now ev cfg = None <-> -3600 <= now - ev_created_at ev <= cf_oldest_event cfg.
 Proof. exact is_recent_bound. Qed.
 Print Assumptions C16_is_recent_bound.
+
+Theorem C16_is_not_too_large_bound : forall now ev cfg,
+  v_is_not_too_large now ev cfg = None <-> Z.of_nat (length (ev_content ev)) <= cf_max_event_size cfg.
+Proof. exact is_not_too_large_bound. Qed.
+Print Assumptions C16_is_not_too_large_bound.
+
+Theorem C16_is_certain_kind_bound : forall now ev cfg,
+  v_is_certain_kind now ev cfg = None <-> In (ev_kind ev) (cf_valid_kinds cfg).
+Proof. exact is_certain_kind_bound. Qed.
+Print Assumptions C16_is_certain_kind_bound.
+
+Theorem C16_is_author_whitelisted_bound : forall now ev cfg,
+  v_is_author_whitelisted now ev cfg = None <-> In (ev_pubkey ev) (cf_pubkey_whitelist cfg).
+Proof. exact is_author_whitelisted_bound. Qed.
+Print Assumptions C16_is_author_whitelisted_bound.
+
+Theorem C16_is_author_blacklisted_bound : forall now ev cfg,
+  v_is_author_blacklisted now ev cfg = None <-> ~ In (ev_pubkey ev) (cf_pubkey_blacklist cfg).
+Proof. exact is_author_blacklisted_bound. Qed.
+Print Assumptions C16_is_author_blacklisted_bound.
+
+(* is_pow <-> id < 2^(256 - require_pow) ... *)
+Theorem C16_is_pow_bound : forall now ev cfg,
+  v_is_pow now ev cfg = None <-> int_of_hex (ev_id ev) < 2 ^ (256 - cf_require_pow cfg).
+Proof. exact is_pow_bound. Qed.
+Print Assumptions C16_is_pow_bound.
+
+(* ... i.e. the 64-digit id has at least that many leading zero bits *)
+Theorem C16_is_pow_leading_zeros : forall now ev cfg,
+  all_hex (ev_id ev) = true -> Z.of_nat (length (ev_id ev)) = 64 ->
+  (v_is_pow now ev cfg = None <-> cf_require_pow cfg <= leading_zeros (bits_of_hex (ev_id ev))).
+Proof. exact is_pow_leading_zeros. Qed.
+Print Assumptions C16_is_pow_leading_zeros.
+
+Theorem C16_is_not_hellthread_bound : forall now ev cfg,
+  v_is_not_hellthread now ev cfg = None <->
+  cf_hellthread_limit cfg = 0 \/ ~ In (ev_kind ev) [1; 7] \/ p_count ev <= cf_hellthread_limit cfg.
+Proof. exact is_not_hellthread_bound. Qed.
+Print Assumptions C16_is_not_hellthread_bound.
+
+Theorem C16_is_service_event_bound : forall now ev cfg,
+  v_is_service_event now ev cfg = None <-> ev_kind ev <> 31494 \/ ev_pubkey ev = cf_service_pubkey cfg.
+Proof. exact is_service_event_bound. Qed.
+Print Assumptions C16_is_service_event_bound.
+
+Theorem C16_is_pubkey_allowed_bound : forall allowed denied ev,
+  v_is_pubkey_allowed allowed denied ev = None <->
+  match py_fromhex (ev_pubkey ev) with
+  | Some b => (is_nil allowed || bmem b allowed) && (is_nil denied || negb (bmem b denied))
+  | None => is_nil allowed && is_nil denied
+  end = true.
+Proof. exact is_pubkey_allowed_spec. Qed.
+Print Assumptions C16_is_pubkey_allowed_bound.
+
+(* all ten, as the code runs them (id through bytes.fromhex, t[0] on every tag, Event.verify an
+   oracle), against the independent statement of the bounds in C16/Spec.v *)
+Theorem C16_validator_spec : forall v e ev,
+  in_domain v e ev = true -> (run_validator v e ev = None <-> spec_passes v e ev = true).
+Proof. exact validator_spec. Qed.
+Print Assumptions C16_validator_spec.
+
+(* ---------------------------------------------------------------- the pipeline *)
+(* stored or broadcast -> every configured validator passed; first raise wins; a refusal
+   carries a reason and leaves no trace *)
+Theorem C16_pipeline_all : forall vs e ev st,
+  (fst (submit vs e ev st) = Accepted <-> forall v, In v vs -> run_validator v e ev = None) /\
+  (snd (submit vs e ev st) <> st -> forall v, In v vs -> run_validator v e ev = None) /\
+  (forall err, fst (submit vs e ev st) = Refused err ->
+     snd (submit vs e ev st) = st /\
+     exists pre v post, vs = pre ++ v :: post /\ (forall u, In u pre -> run_validator u e ev = None) /\
+                        run_validator v e ev = Some err).
+Proof. exact submit_all. Qed.
+Print Assumptions C16_pipeline_all.
+
+Theorem C16_pipeline_bounds : forall vs e ev st,
+  fst (submit vs e ev st) = Accepted ->
+  forall v, In v vs -> in_domain v e ev = true -> spec_passes v e ev = true.
+Proof. exact submit_bounds. Qed.
+Print Assumptions C16_pipeline_bounds.
+
+Theorem C16_refusal_justified : forall vs e ev st err,
+  fst (submit vs e ev st) = Refused err ->
+  exists v, In v vs /\ (in_domain v e ev = true -> spec_passes v e ev = false).
+Proof. exact submit_refusal_justified. Qed.
+Print Assumptions C16_refusal_justified.
+
+(* ---------------------------------------------------------------- dynamic lists *)
+(* the collected set is exactly the p-tagged pubkeys of the query results *)
+Theorem C16_collect_exact : forall events b, In b (collect events) <-> collected_spec events b.
+Proof. exact collected_meaning. Qed.
+Print Assumptions C16_collect_exact.
+
+(* a validation that is not interleaved with anything is the translated function *)
+Theorem C16_reader_atomic : forall σ ev,
+  rstep (ev_pubkey ev) σ (rstep (ev_pubkey ev) σ (rstep (ev_pubkey ev) σ (rstep (ev_pubkey ev) σ RA0)))
+  = RDone (v_is_pubkey_allowed (g_allow σ) (g_deny σ) ev).
+Proof. exact reader_atomic. Qed.
+Print Assumptions C16_reader_atomic.
+
+(* the program the theorems below are about is the translated run_once *)
+Theorem C16_refresh_prog : forall old results initial,
+  refresh_prog results initial = prog_of (case_of old results initial).
+Proof. exact refresh_prog_of. Qed.
+Print Assumptions C16_refresh_prog.
+
+(* for ALL schedules (any number of validator threads, any interleaving of their atomic reads
+   with the atomic steps of the refresh): an enforced allow list is never observed empty *)
+Theorem C16_refresh_never_empty : forall c pks sched,
+  enforced_allow c = true -> g_allow (s_sets (srun sched (sys0 c pks))) <> [].
+Proof. exact refresh_never_empty. Qed.
+Print Assumptions C16_refresh_never_empty.
+
+(* ... a pubkey in neither the old list, the new list nor the static keys is refused, and so
+   is a pubkey on the deny list before and after *)
+Theorem C16_refresh_refuses : forall c pks sched i pk r,
+  must_refuse c pk = true ->
+  nth_error (s_readers (srun sched (sys0 c pks))) i = Some (pk, RDone r) -> r <> None.
+Proof. exact refresh_refuses. Qed.
+Print Assumptions C16_refresh_refuses.
+
+(* ... a pubkey allowed before and after and never denied is admitted *)
+Theorem C16_refresh_admits : forall c pks sched i pk r,
+  must_admit c pk = true ->
+  nth_error (s_readers (srun sched (sys0 c pks))) i = Some (pk, RDone r) -> r = None.
+Proof. exact refresh_admits. Qed.
+Print Assumptions C16_refresh_admits.
+
+(* ... and when the refresh has completed, the lists are exactly the collected pubkeys plus
+   (allow list, when non-empty) the static keys *)
+Theorem C16_refresh_final : forall c pks sched,
+  s_writer (srun sched (sys0 c pks)) = [] ->
+  initial_ok c = true ->
+  same_set (g_allow (s_sets (srun sched (sys0 c pks)))) (final_allow c) /\
+  same_set (g_deny (s_sets (srun sched (sys0 c pks)))) (final_deny c).
+Proof. exact refresh_final. Qed.
+Print Assumptions C16_refresh_final.
+
+(* F20 (fixed in /repo): the previous shape clear(); update() lets a validation see the
+   enforced list empty and admit an outsider - witness schedule [writer; reader; reader] *)
+Theorem C16_refresh_old_shape_refuted :
+  enforced_allow (case_of f20_old (fun g => match g with GAllow => Some f20_events | GDeny => None end) []) = true /\
+  must_refuse (case_of f20_old (fun g => match g with GAllow => Some f20_events | GDeny => None end) []) f20_outsider = true /\
+  g_allow (s_sets (srun [O] f20_sys)) = [] /\
+  s_readers (srun [0; 1; 1]%nat f20_sys) = [(f20_outsider, RDone None)].
+Proof. exact f20_old_shape_refuted. Qed.
+Print Assumptions C16_refresh_old_shape_refuted.
+
+(* ---------------------------------------------------------------- non-vacuity *)
+Definition ex_cfg : vconfig :=
+  {| cf_max_event_size := 5; cf_oldest_event := 100; cf_valid_kinds := [1]; cf_pubkey_whitelist := [];
+     cf_pubkey_blacklist := []; cf_require_pow := 8; cf_hellthread_limit := 1; cf_service_pubkey := [];
+     cf_subscription_limit := 32; cf_max_limit := 6000 |}.
+Definition ex_ev (created : Z) (content : pystr) : vevent :=
+  {| ev_id := pys "00" ++ repeat 102%N 62; ev_pubkey := repeat 49%N 64; ev_created_at := created; ev_kind := 1;
+     ev_tags := [[pys "p"; repeat 49%N 64]]; ev_content := content; ev_sig := [] |}.
+Definition ex_env : venv :=
+  {| e_now := 1000; e_cfg := ex_cfg; e_verify := VTrue; e_lists := {| g_allow := []; g_deny := [] |} |}.
+Definition ex_relay : relay := {| r_stored := []; r_broadcast := [] |}.
+Definition all_vids := [VTooLarge; VSigned; VRecent; VKind; VPow; VHell; VService; VDyn].
+
+(* an event at every bound at once is admitted by the eight-validator pipeline ... *)
+Example C16_ex_admitted :
+  fst (submit all_vids ex_env (ex_ev 900 (pys "abcde")) ex_relay) = Accepted /\
+  Forall (fun v => in_domain v ex_env (ex_ev 900 (pys "abcde")) = true) all_vids.
+Proof. vm_compute. split; [reflexivity | repeat constructor]. Qed.
+(* ... and one step outside a single bound (age 101 > 100; 6 > 5 characters) it is refused *)
+Example C16_ex_refused :
+  fst (submit all_vids ex_env (ex_ev 899 (pys "abcde")) ex_relay) = Refused (pys "StorageError") /\
+  fst (submit all_vids ex_env (ex_ev 900 (pys "abcdef")) ex_relay) = Refused (pys "StorageError").
+Proof. vm_compute. split; reflexivity. Qed.
+
+(* a refresh case in which all three reader classes are inhabited *)
+Definition ex_case : refresh_case :=
+  {| rc_old := {| g_allow := [[1%N]; [2%N]]; g_deny := [[9%N]] |}; rc_new_allow := Some [[2%N]; [3%N]];
+     rc_new_deny := Some [[9%N]]; rc_initial := [pys "04"] |}.
+Example C16_ex_refresh_classes :
+  enforced_allow ex_case = true /\ must_refuse ex_case (pys "05") = true /\ must_refuse ex_case (pys "09") = true /\
+  must_admit ex_case (pys "02") = true /\ initial_ok ex_case = true /\
+  s_writer (srun (repeat O 8) (sys0 ex_case [pys "02"])) = [].
+Proof. vm_compute. repeat split. Qed.
